@@ -8,6 +8,7 @@ inputs a coverage-guided search adds), their results are compared with the model
 binary runs every input in maildir and stdin mode with a time limit."""
 import concurrent.futures as cf
 import hashlib
+import itertools
 import json
 import os
 import random
@@ -251,6 +252,74 @@ def process_stage(rep, sc, msgs, conf_text):
         return list(ex.map(one, enumerate(msgs)))
 
 
+L0_ALPHABET = [b'=', b'?', b'Q', b'b', b'Z', b'g', b'4', b'A', b' ', b'\n', b'\t', b'_', b':', b'-']
+
+
+def l0_requests(rng, pool, quick):
+    """Requests `op hexargs...` on which the index-level (L0) transcription and the list model (L1) must agree."""
+    cut = lambda b: b.split(b'\0')[0]
+    reqs = []
+    # every string up to length 3 over the alphabet, and random longer ones, through the decoders and unfoldheader
+    small = [b'']
+    for n in (1, 2, 3):
+        small += [b''.join(t) for t in itertools.product(L0_ALPHABET, repeat=n)]
+    for _ in range(2000 if quick else 60000):
+        small.append(b''.join(rng.choice(L0_ALPHABET) for _ in range(rng.randrange(4, 24))))
+    small += [b'Zm9v', b'Zm9vYg==', b'Zm9vYmE=', b'Zg=', b'Zg= =', b'Zg==  ', b'=?utf-8?Q?a_b=3D?=', b'=?x?B?Zm9v?= =?x?b?YmFy?=', b'=?x?B?!!?=',
+              b'=?a?b?c', b'=?=?x?Q?a?=', b'=?x?q?=?=', b'=41=\n', b'a=\n=\nb', b'a\n\tb\n c', b'\t\n\t', b'\xff\xfe=', b'=?' * 50]
+    for s in small:
+        for op in ('b64raw', 'qp', 'qph', 'r2047raw', 'unfold'):
+            reqs.append((op, s))
+        reqs.append(('b64n', s, b'x' * rng.randrange(0, 8)))
+    # isbackref / ismacro / pathslice on strings over their own alphabets
+    balpha = [b'\\', b'1', b'0', b'9', b'.', b'-', b'+', b' ', b'a', b'$', b'{', b'}', b'/']
+    for _ in range(3000 if quick else 60000):
+        s = b''.join(rng.choice(balpha) for _ in range(rng.randrange(0, 9)))
+        reqs.append(('isbackref', s))
+        reqs.append(('ismacro', s))
+        path = b''.join(rng.choice([b'/', b'/', b'a', b'bc', b'.']) for _ in range(rng.randrange(1, 9)))
+        reqs.append(('pslice', path, b'%d' % rng.choice([0, 1, 2, 3, 5, 8, 64]), b'%d' % rng.randrange(-4, 5), b'%d' % rng.randrange(-4, 5)))
+    reqs += [('isbackref', b'\\99999999999'), ('isbackref', b'\\1.99999999999'), ('isbackref', b'\\1\\.'), ('isbackref', b'\\1.-0'),
+             ('isbackref', b'\\2147483647'), ('isbackref', b'\\2147483648'), ('ismacro', b'${'), ('ismacro', b'${}'), ('ismacro', b'$')]
+    # the messages of this run: header table, lookups, part tables; their lines as decoder inputs
+    names = [b'Content-Type', b'content-type', b'Subject', b'To', b'X-Label', b'H3', b'Content-Transfer-Encoding', b'zz', b'A']
+    msgs = list(pool)
+    rng.shuffle(msgs)
+    for m in msgs[:(700 if quick else 20000)]:
+        m = m[:20000]
+        reqs.append(('hparse', m))
+        reqs.append(('nparts', m))
+        reqs.append(('hget', rng.choice(names), m))
+        lines = [l for l in cut(m).split(b'\n') if l]
+        for l in rng.sample(lines, min(len(lines), 3)):
+            v = l.split(b':', 1)[-1].strip()
+            reqs.append((rng.choice(['b64raw', 'b64', 'qp', 'r2047', 'r2047raw']), cut(v)))
+        body = cut(m).split(b'\n\n', 1)[-1][:4000]
+        reqs.append((rng.choice(['b64raw', 'qp', 'unfold']), body))
+    return reqs
+
+
+def l0_stage(rep, rng, pool, quick):
+    """Model layers: the index-level transcription (every access bounds-checked, `C07_L0_*`) must return without
+    a fault and agree with the list model that is compared with the C code above."""
+    reqs = l0_requests(rng, pool, quick)
+    lines = [vlib.Differential.line(r) for r in reqs]
+    drv = [vlib.driver_path()]
+    l1 = vlib.run_batch(drv, ['M ' + l for l in lines])
+    l0 = vlib.run_batch(drv, ['l0 ' + l for l in lines])
+    bad = [(l, a, b) for l, a, b in zip(lines, l1, l0) if b != 'OK ' + a]
+    if bad and not rep.violations:
+        faults = [x for x in bad if x[2].startswith('FAULT')]
+        rep.violation({'obligation': 'model layers: the index-level model (Model/L0, bounds-checked accesses) and the list model '
+                                     '(Model/Decode, Header, Mime) must agree and the index-level model must not fault',
+                       'disagreements': len(bad), 'faults': len(faults),
+                       'examples': [{'request': l[:4000], 'list_model': a[:2000], 'index_model': b[:2000]} for l, a, b in (faults + bad)[:6]]}, False)
+    ops = {}
+    for r in reqs:
+        ops[r[0]] = ops.get(r[0], 0) + 1
+    return {'requests': len(reqs), 'by_op': ops, 'disagreements': len(bad)}
+
+
 def run(rep):
     rng = random.Random(rep.seed)
     sc = vlib.Scratch()
@@ -288,6 +357,8 @@ def run(rep):
     d = vlib.Differential(rep, [h], env=env, spec_ops=set(), name='h_message')
     impl, model, spec = d.run(reqs, shrink=False)
     d.conclude('message.c (message_parse, parseattachments, message_get_body, decoders) <-> Model/Header.lean, Mime.lean, Decode.lean on hostile inputs')
+    # 2b. the index-level model (bounds-checked accesses, C07_L0_*) against the list model just compared with the C code
+    l0stats = l0_stage(rep, rng, pool, quick)
     # evaluator with the battery
     h2, env2 = ec.harness(sc)
     env2 = dict(env2, LC_ALL='C')     # the model's regex oracle runs in the C locale
@@ -363,7 +434,8 @@ def run(rep):
         'evaluator_outcomes': tri,
         'process_outcomes': pstat,
         'coverage_search': fstats,
-        'correspondence_mismatches': len(d.corr_mismatch) + len(ebad),
+        'index_level_model_vs_list_model': l0stats,
+        'correspondence_mismatches': len(d.corr_mismatch) + len(ebad) + l0stats['disagreements'],
         'sanitizer_faults': len(d.faults) + efault + len(arts),
     })
     rep.assumptions += ['C locale; inputs up to 64 KiB; one hostile message per run next to one control message',
